@@ -347,7 +347,24 @@ func (jenny RawTypes) fromJSONForTypeRec(context languages.Context, typeDef ast.
 	if typeDef.IsRef() { //nolint:gocritic
 		resolvedType := context.ResolveRefs(typeDef)
 		if resolvedType.IsStruct() {
-			formattedRef := jenny.typeFormatter.formatFullyQualifiedRef(typeDef.AsRef(), false)
+			// aliases (`Alias: Inner`) are emitted as forward references, ie: strings at
+			// runtime. `from_json` has to be called on the class itself.
+			structRef := typeDef.AsRef()
+			followed := map[string]struct{}{}
+			for {
+				referredObject, found := context.LocateObjectByRef(structRef)
+				if !found || !referredObject.Type.IsRef() {
+					break
+				}
+				if _, alreadyFollowed := followed[structRef.String()]; alreadyFollowed {
+					break
+				}
+				followed[structRef.String()] = struct{}{}
+
+				structRef = referredObject.Type.AsRef()
+			}
+
+			formattedRef := jenny.typeFormatter.formatFullyQualifiedRef(structRef, false)
 
 			return fromJSONCode{
 				DecodingCall: fmt.Sprintf(`%s.from_json(%s)`, formattedRef, inputVar),
